@@ -21,9 +21,9 @@ import (
 )
 
 type pegEngine struct {
-	prog                                                  *Program
+	prog                                                   *Program
 	parseExpr, restore, read, pushV, popV, sliceFrom, fail *ssa.Function
-	addErr, addErrAt                                      *ssa.Function
+	addErr, addErrAt                                       *ssa.Function
 }
 
 func newPegEngine(prog *Program) *pegEngine {
@@ -80,9 +80,6 @@ func (e *pegEngine) run(fn *ssa.Function, visits int) []*Summary {
 		// repetitions, …): unexported, of package grammar, neither a primitive nor a combinator. The descent itself
 		// (parseExpr) is a primitive and stays a call, so this cannot run away.
 		if o := c.Object(); o != nil && o.Exported() {
-			return false
-		}
-		if rv := c.Signature.Recv(); rv != nil && !namedIs(rv.Type(), grammarPath, "parser") {
 			return false
 		}
 		within[c] = true
@@ -1152,61 +1149,88 @@ func (e *pegEngine) classMember(sm *Summary, fn *ssa.Function) (member, decided 
 }
 
 // classTests: structural obligations on the membership tests.
-func (e *pegEngine) classTests(fn *ssa.Function) []string {
+func (e *pegEngine) classTests(top *ssa.Function) []string {
 	var probs []string
 	eq, ge, le, is := 0, 0, 0, 0
 	step2 := false
-	for _, b := range fn.Blocks {
-		for _, ins := range b.Instrs {
-			switch x := ins.(type) {
-			case *ssa.BinOp:
-				elem := func(v ssa.Value, field string) (*ssa.IndexAddr, bool) {
-					ld, ok := v.(*ssa.UnOp)
-					if !ok {
-						return nil, false
+	// the combinator and the helpers it calls (a `matches(rune)` the three membership loops were moved into)
+	fns := []*ssa.Function{top}
+	seenF := map[*ssa.Function]bool{top: true}
+	for i := 0; i < len(fns) && i < 8; i++ {
+		for _, b := range fns[i].Blocks {
+			for _, ins := range b.Instrs {
+				if c, ok := ins.(*ssa.Call); ok {
+					if g := c.Call.StaticCallee(); g != nil && !seenF[g] && g.Pkg == e.prog.GrammarSSA && !e.primitive(g) && !e.combinatorOf(g) && len(g.Blocks) > 0 {
+						seenF[g] = true
+						fns = append(fns, g)
 					}
-					ia, ok := ld.X.(*ssa.IndexAddr)
-					if !ok || !isLoadOfField(ia.X, fn.Params[1], field) {
-						return nil, false
-					}
-					return ia, true
 				}
-				switch x.Op {
-				case token.EQL:
-					if _, ok := elem(x.X, "chars"); ok {
-						eq++
-					} else if _, ok := elem(x.Y, "chars"); ok {
-						eq++
-					} else if ex, ok := x.X.(*ssa.Extract); ok && ex.Index == 2 {
-						eq++ // ranged over chars
-					} else if ex, ok := x.Y.(*ssa.Extract); ok && ex.Index == 2 {
-						eq++
+			}
+		}
+	}
+	for _, fn := range fns {
+		nodeParam := fn.Params[len(fn.Params)-1]
+		if fn == top {
+			nodeParam = fn.Params[1]
+		} else {
+			for _, p := range fn.Params {
+				if pt, ok := p.Type().Underlying().(*types.Pointer); ok && namedIs(pt.Elem(), grammarPath, "charClassMatcher") {
+					nodeParam = p
+				}
+			}
+		}
+		for _, b := range fn.Blocks {
+			for _, ins := range b.Instrs {
+				switch x := ins.(type) {
+				case *ssa.BinOp:
+					elem := func(v ssa.Value, field string) (*ssa.IndexAddr, bool) {
+						ld, ok := v.(*ssa.UnOp)
+						if !ok {
+							return nil, false
+						}
+						ia, ok := ld.X.(*ssa.IndexAddr)
+						if !ok || !isLoadOfField(ia.X, nodeParam, field) {
+							return nil, false
+						}
+						return ia, true
 					}
-				case token.GEQ:
-					if ia, ok := elem(x.Y, "ranges"); ok {
-						ge++
-						if phi, ok := ia.Index.(*ssa.Phi); ok {
-							for _, ed := range phi.Edges {
-								if add, ok := ed.(*ssa.BinOp); ok && add.Op == token.ADD {
-									if c, ok := add.Y.(*ssa.Const); ok && c.Value != nil && c.Value.ExactString() == "2" {
-										step2 = true
+					switch x.Op {
+					case token.EQL:
+						if _, ok := elem(x.X, "chars"); ok {
+							eq++
+						} else if _, ok := elem(x.Y, "chars"); ok {
+							eq++
+						} else if ex, ok := x.X.(*ssa.Extract); ok && ex.Index == 2 {
+							eq++ // ranged over chars
+						} else if ex, ok := x.Y.(*ssa.Extract); ok && ex.Index == 2 {
+							eq++
+						}
+					case token.GEQ:
+						if ia, ok := elem(x.Y, "ranges"); ok {
+							ge++
+							if phi, ok := ia.Index.(*ssa.Phi); ok {
+								for _, ed := range phi.Edges {
+									if add, ok := ed.(*ssa.BinOp); ok && add.Op == token.ADD {
+										if c, ok := add.Y.(*ssa.Const); ok && c.Value != nil && c.Value.ExactString() == "2" {
+											step2 = true
+										}
 									}
 								}
 							}
 						}
-					}
-				case token.LEQ:
-					if ia, ok := elem(x.Y, "ranges"); ok {
-						if add, ok := ia.Index.(*ssa.BinOp); ok && add.Op == token.ADD {
-							if c, ok := add.Y.(*ssa.Const); ok && c.Value != nil && c.Value.ExactString() == "1" {
-								le++
+					case token.LEQ:
+						if ia, ok := elem(x.Y, "ranges"); ok {
+							if add, ok := ia.Index.(*ssa.BinOp); ok && add.Op == token.ADD {
+								if c, ok := add.Y.(*ssa.Const); ok && c.Value != nil && c.Value.ExactString() == "1" {
+									le++
+								}
 							}
 						}
 					}
-				}
-			case *ssa.Call:
-				if f := x.Call.StaticCallee(); f != nil && f.Pkg != nil && f.Pkg.Pkg.Path() == "unicode" && f.Name() == "Is" {
-					is++
+				case *ssa.Call:
+					if f := x.Call.StaticCallee(); f != nil && f.Pkg != nil && f.Pkg.Pkg.Path() == "unicode" && f.Name() == "Is" {
+						is++
+					}
 				}
 			}
 		}
